@@ -27,6 +27,69 @@ def _lib(name):
 
 CHECKED_LIBS = ('numpy', 'torch')
 
+# Cache of "does <lib>.<a>.<b> exist in the installed library", keyed by the library's installed version.  It describes
+# the third-party library only (never /repo) and merely avoids importing torch (~5 s, 600 MB) in every check.
+import json
+import os
+_CACHE_PATH = os.path.join(os.path.dirname(os.path.dirname(os.path.dirname(os.path.abspath(__file__)))), '.cache', 'libattrs.json')
+_CACHE = None
+
+
+def _lib_version(lib):
+    try:
+        from importlib import metadata
+        return metadata.version(lib)
+    except Exception:
+        return 'unknown'
+
+
+def _cache():
+    global _CACHE
+    if _CACHE is None:
+        try:
+            with open(_CACHE_PATH) as fh:
+                _CACHE = json.load(fh)
+        except Exception:
+            _CACHE = {}
+    return _CACHE
+
+
+def _cache_store():
+    try:
+        os.makedirs(os.path.dirname(_CACHE_PATH), exist_ok=True)
+        tmp = _CACHE_PATH + '.%d.tmp' % os.getpid()
+        with open(tmp, 'w') as fh:
+            json.dump(_CACHE, fh)
+        os.replace(tmp, _CACHE_PATH)
+    except Exception:
+        pass
+
+
+def chain_exists(libname, chain):
+    """(exists, checked prefix) for attribute chain `chain` (list of names) rooted at module `libname`."""
+    top = libname.split('.')[0]
+    key = '%s==%s' % (top, _lib_version(top))
+    c = _cache().setdefault(key, {})
+    ck = libname + ':' + '.'.join(chain)
+    if ck in c:
+        return tuple(c[ck])
+    obj = _lib(libname)
+    if obj is None:
+        return (True, list(chain))
+    ok = True
+    upto = []
+    for a in chain:
+        upto.append(a)
+        if not hasattr(obj, a):
+            ok = False
+            break
+        obj = getattr(obj, a)
+        if not (type(obj).__name__ in ('module', '_OpNamespace')):
+            break
+    c[ck] = [ok, upto]
+    _cache_store()
+    return (ok, upto)
+
 
 def local_names(fnode):
     names = set()
@@ -115,28 +178,13 @@ def check_lib_attrs(run, f, rule='R1b'):
         if key in seen:
             continue
         seen.add(key)
-        obj = _lib(libname)
-        if obj is None:
-            continue
         n_checked += 1
-        ok = True
-        upto = [d[0]]
-        for a in d[1:]:
-            upto.append(a)
-            if not hasattr(obj, a):
-                ok = False
-                break
-            obj = getattr(obj, a)
-            # stop at the first non-module / non-namespace value: attributes of arrays, dtypes, functions
-            # are runtime objects whose attributes the rule does not model
-            if not (isinstance(obj, type(importlib)) or type(obj).__name__ in ('module', '_OpNamespace')):
-                if a != d[-1]:
-                    pass
-                break
+        ok, up = chain_exists(libname, d[1:])
+        upto = [d[0]] + list(up)
         if not ok and id(n) not in exempt:
             run.violation(rule, f, '.'.join(upto), '`%s` does not exist in the installed %s %s: AttributeError '
                           'whenever the statement is reached' % ('.'.join(upto), libname,
-                                                                 getattr(_lib(libname.split('.')[0]), '__version__', '')),
+                                                                 _lib_version(libname.split('.')[0])),
                           line=n.lineno)
     return n_checked
 
